@@ -31,9 +31,21 @@ def gflags_rhs(m):
     return ''.join('1' if p.ground.any() else '0' for p in m.pulses)
 
 
+def loads_of(ant, n):
+    """lumped loads of the model, a function of the model (so that every solve of one case sees the same loads):
+    none for two models out of five, else 1-2 complex impedances on pulses chosen by a hash"""
+    import hashlib, json
+    h = int(hashlib.sha1(json.dumps(ant, sort_keys=True, default=str).encode()).hexdigest()[8:16], 16)
+    if h % 5 < 2 or n == 0:
+        return []
+    return [((h >> (8 * k)) % n, complex(5 + (h >> (3 + k)) % 200, ((h >> (11 + k)) % 300) - 150)) for k in range(1 + h % 2)]
+
+
 def solve_with(ant, srcs):
-    from mininec.mininec import Excitation
+    from mininec.mininec import Excitation, Impedance_Load
     m = antgen.build(ant)
+    for p, z in loads_of(ant, len(m.pulses)):
+        m.register_load(Impedance_Load(z), p)
     for p, v in srcs:
         m.register_source(Excitation(v), p)
     m.compute()
@@ -70,6 +82,18 @@ def property_on_impl(ant, srcs, c):
         mr = solve_with(ant, list(reversed(srcs)))
         if max(abs(mr.current - m0.current)) > tol * scale:
             return 'currents depend on the order in which the sources are registered (%.3g)' % (max(abs(mr.current - m0.current)) / scale)
+    # the same object solved again with all voltages multiplied by c (nothing else touched)
+    i0 = m0.current.copy()
+    z0 = [s.impedance for s in m0.sources]
+    for s_ in m0.sources:
+        s_.voltage = s_.voltage * c
+    m0.compute()
+    if max(abs(m0.current - c * i0)) > tol * abs(c) * scale:
+        return ('the same object solved again with all voltages multiplied by %r: currents deviate by %.3g from %r times the '
+                'first solution (%d loads)' % (c, max(abs(m0.current - c * i0)) / (abs(c) * scale), c, len(m0.loads)))
+    for s_, z in zip(m0.sources, z0):
+        if abs(s_.impedance - z) > tol * abs(z):
+            return 'the same object solved again with scaled voltages: source impedance %r becomes %r' % (z, s_.impedance)
     for s in m0.sources:
         i = m0.current[s.idx]
         if abs(s.impedance - s.voltage / i) > 1e-9 * abs(s.impedance):
@@ -154,7 +178,7 @@ def run(ck):
     ck.stats['disagreements'] = len(dis)
     # property evaluator on a small vetted corpus (well inside the domain)
     corpus_rng = __import__('random').Random(12345)
-    for j in range(4 if ck.tier == 'quick' else 40):
+    for j in range(12 if ck.tier == 'quick' else 60):
         ant = antgen.gen_antenna(corpus_rng, families=['dipole', 'tee', 'monopole'], max_pulses=14)
         m = antgen.build(ant)
         N = len(m.pulses)
